@@ -19,6 +19,15 @@ Oracles (the property itself on navis' output): Lean checkers `coversB`/`insideB
  reports them); no filled voxel without a source point; voxel coordinates inside the requested extent; `counts` total == number of
  points whose voxel is in the grid, ≥ points inside the bounds; tangents per non-degenerate edge at the midpoints; unit tangents;
  alpha in [0,1]; one tangent per finite row.
+Second pass — Lean-side checkers (proved sound in Props/C19) evaluated on navis' own output instead of Python re-implementations:
+ `c19.dots` (exact kNN → centroid → scatter matrix → `judge`: unit tangent, principal axis by eigen-residual + Sylvester test of
+ (λ+ε·tr)I − M, alpha by the characteristic-polynomial coefficients), `c19.voxvec` (the same judgement for every voxel of
+ `vectors=True`/`alphas=True`), `c19.tancheck` (`tanOKB` on the normalised vectors / lengths of k=0 dotprops), `c19.checkat`
+ (`coversAtB`/`sourcedAtB` on the offset / units the VoxelNeuron reports), `c19.mapunits` (unit-string pitches), `c19.vmapidx` /
+ `c19.vmapid` / `c19.bbox` / `c19.surf` (vertex maps, bounding boxes, surface hugging + extent in exact dyadic coordinates).
+ New streams: default bounds enlarged by connectors, unit strings in a different unit than the neuron's, NeuronList inputs, voxel
+ grids built directly (offset ≠ 0, per-axis units, blobs away from index 0) meshed through the single-pass and the chunked path
+ (chunk_size, pad_chunks, merge_fragments), skeleton forests / isolated nodes / unsorted tables for tube meshes.
 Oracle-only TESTS (external algorithms): tube mesh rings are centred on their nodes and the surface passes within two radii of every
  node (`navis.mesh(skeleton)`, the tube is open-ended, so ray-casting containment is undefined); `navis.mesh(voxelneuron)` surface
  within half a voxel of a filled voxel and within the grid's extent; `navis.skeletonize(mesh)` inside the mesh's bounding box with a
@@ -122,12 +131,17 @@ def case_round(ctx, case):
 # ---------------------------------------------------------------------------------------------
 # (b) voxelisation
 # ---------------------------------------------------------------------------------------------
-def build_neuron(ntype, P, units):
+def build_neuron(ntype, P, units, conn=None):
     n = len(P)
     if ntype == 'tree':
         df = pd.DataFrame({'node_id': np.arange(1, n + 1), 'parent_id': [-1] + list(range(1, n)),
                            'x': P[:, 0], 'y': P[:, 1], 'z': P[:, 2], 'radius': 0.01})
-        return navis.TreeNeuron(df, units=units, id=7, name='t')
+        x = navis.TreeNeuron(df, units=units, id=7, name='t')
+        if conn:
+            C = np.array([[float(fr(c)) for c in p] for p in conn], dtype=float).reshape(-1, 3)
+            x.connectors = pd.DataFrame({'connector_id': np.arange(len(C)), 'node_id': [1] * len(C), 'type': ['pre'] * len(C),
+                                         'x': C[:, 0], 'y': C[:, 1], 'z': C[:, 2]})
+        return x
     if ntype == 'dotprops':
         return navis.Dotprops(P, k=None, vect=np.tile([1.0, 0.0, 0.0], (n, 1)), units=units, id=7, name='d')
     F = np.array([[i, (i + 1) % n, (i + 2) % n] for i in range(max(n - 2, 1))], dtype=int)
@@ -142,7 +156,7 @@ def vox_inputs(case):
 
 def case_vox(ctx, case):
     pts, P = vox_inputs(case)
-    x = build_neuron(case['ntype'], P, case['units'])
+    x = build_neuron(case['ntype'], P, case['units'], case.get('conn'))
     u = units_xyz_mag(x)
     pitch_model = [fr(c) for c in case['pitch_exact']]          # what the pitch argument means in neuron units
     parg = case['pitch_arg']
@@ -154,9 +168,11 @@ def case_vox(ctx, case):
         pitch = [(c if isinstance(c, str) and ' ' in c else float(fr(c))) for c in parg['v']]
     b = case['bounds']
     if b is None:
-        lo = [min(p[k] for p in pts) for k in range(3)]
-        hi = [max(p[k] for p in pts) for k in range(3)]
+        allp = pts + [[fr(c) for c in p] for p in (case.get('conn') or [])]     # x.bbox includes connectors
+        lo = [min(p[k] for p in allp) for k in range(3)]
+        hi = [max(p[k] for p in allp) for k in range(3)]
         bounds = None
+        ctx.count('vox_default_bounds_enlarged_by_connectors', bool(case.get('conn')))
     else:
         lo, hi = [fr(c) for c in b['lo']], [fr(c) for c in b['hi']]
         arr = np.array([[float(l), float(h)] for l, h in zip(lo, hi)])
@@ -174,6 +190,12 @@ def case_vox(ctx, case):
         if got != pitch_model[k_ax]:
             ctx.count('vox_pitch_string_inexact', str(arg))
             return
+        if isinstance(arg, str) and case.get('pitch_phys') and case['pitch_phys'][k_ax]:
+            # unit strings: Lean `mapUnits q factor umag` (theorem voxel_size_physical) vs navis' map_units
+            q_, f_ = (fr(t) for t in case['pitch_phys'][k_ax])
+            mu = ctx.ask(f'c19.mapunits {tok(q_)} {tok(f_)} {tok(u[k_ax])}').split()
+            ctx.corr(tok(got), mu[0], f'map_units({arg!r}) == Lean mapUnits(q, factor, umag)', case)
+            ctx.count('vox_pitch_string_unit', 'same-unit' if f_ == 1 else 'other-unit')
     ctx.count('vox_ntype', case['ntype']); ctx.count('vox_pitch_kind', parg['kind'])
     ctx.count('vox_bounds', 'default' if b is None else b['cls'] + '/' + b['layout'])
     ctx.count('vox_opts', f"counts={int(counts)} vectors={int(vectors)} alphas={int(alphas)}")
@@ -224,6 +246,15 @@ def case_vox(ctx, case):
     chk = ctx.ask('c19.check ' + ' | '.join([p3tok(pitch_model), p3tok(lo), p3tok(hi), p3tok(u), ';'.join(p3tok(p) for p in pts),
                                               ';'.join(','.join(map(str, t)) for t in i_filled)]))
     ctx.oracle(chk == 'cover=1 inside=1', f'Lean coversB/insideB reject navis\' grid: {chk}', case)
+    # ---------------- oracle 1b: the same clause in the coordinates the VoxelNeuron itself reports (Lean coversAtB / sourcedAtB)
+    chk2 = ctx.ask('c19.checkat ' + ' | '.join([p3tok(pitch_model), p3tok(lo), p3tok(hi), p3tok(u), p3tok(off), p3tok(vu),
+                                                ';'.join(p3tok(p) for p in pts), ';'.join(','.join(map(str, t)) for t in i_filled)]))
+    ctx.oracle(chk2 == 'cover=1 sourced=1',
+               f'with the offset {p3tok(off)} / units {p3tok(vu)} the VoxelNeuron reports, Lean coversAtB/sourcedAtB give {chk2}: a point '
+               f'inside the bounds is farther than one voxel size from every filled voxel, or a filled voxel has no source point', case)
+    if case.get('pitch_phys') and all(case['pitch_phys']) and all(isinstance(a_, str) for a_ in (pitch if isinstance(pitch, list) else [pitch])):
+        want = [fr(t[0]) * fr(t[1]) for t in case['pitch_phys']]
+        ctx.oracle(vu == want, f'voxel size reported {p3tok(vu)} != requested physical pitch {p3tok(want)} (in {unit_name(x)})', case)
     # ---------------- oracle 2: alignment in the VoxelNeuron's own coordinates
     coords = [[off[k] + t[k] * vu[k] for k in range(3)] for t in i_filled]
     inb = [p for p in pts if all(lo[k] <= p[k] <= hi[k] for k in range(3))]
@@ -260,6 +291,22 @@ def case_vox(ctx, case):
                                        f'{[t for t in i_filled if t not in nz][:4]}', case)
             norms = [float(np.linalg.norm(vec[t])) for t in i_filled]
             ctx.oracle(all(abs(nn - 1) < 1e-5 for nn in norms), 'vectors=True: vector of a filled voxel is not a unit vector', case)
+            # principal axis / alpha of the points of every voxel, judged by Lean on the exact scatter matrix (float32 fields)
+            a_arr = getattr(v, 'alphas', None) if alphas else None
+            a_ok = isinstance(a_arr, np.ndarray) and tuple(a_arr.shape) == shape
+            if i_filled:
+                cells = ';'.join(','.join(map(str, t)) + ',' + ','.join(tok(fl(c)) for c in vec[t]) + ','
+                                 + (tok(fl(a_arr[t])) if a_ok else 'x') for t in i_filled)
+                if not a_ok:
+                    cells = cells.replace(',x', ',0')
+                out = kv(ctx.ask('c19.voxvec ' + ' | '.join([p3tok(pitch_model), p3tok(lo), p3tok(hi), p3tok(u), ';'.join(p3tok(p) for p in pts),
+                                                              cells, '1/65536 1/4096 1/4096'])))
+                verd = out['v'].split(';')
+                for w in verd:
+                    ctx.count('voxvec_verdict', w if a_ok or not w.startswith('bad-alpha') else 'axis-only')
+                bad = [(t, w) for t, w in zip(i_filled, verd) if w in ('bad-unit', 'bad-axis') or (a_ok and w.startswith('bad-alpha'))]
+                ctx.oracle(not bad, f'vectors/alphas: Lean judge rejects the vector / alpha of voxel(s) {bad[:3]} against the exact scatter '
+                                    f'matrix of the points in that voxel', case)
     if alphas:
         a = getattr(v, 'alphas', None)
         if not isinstance(a, np.ndarray) or tuple(a.shape) != shape:
@@ -292,6 +339,20 @@ def case_tan(ctx, case):
     except Exception as e:
         ctx.oracle(False, f'make_dotprops(skeleton, k={case["k"]}) raises {type(e).__name__}: {str(e)[:120]}', case)
         return
+    if case.get('resample') and edges:
+        # `resample=` glue: the skeleton is resampled first (C13 covers the resampling itself), the tangents are those of the result
+        rs = float(fr(case['resample']))
+        try:
+            x2 = x.resample(rs, inplace=False)
+            want = navis.make_dotprops(x2, k=case['k'])
+            got = navis.make_dotprops(x, k=case['k'], resample=rs)
+            ctx.count('tan_resample', 'ok')
+            ctx.oracle(np.array_equal(np.asarray(got.points), np.asarray(want.points)) and np.array_equal(np.asarray(got.vect), np.asarray(want.vect))
+                       and np.array_equal(np.asarray(got.length), np.asarray(want.length)) and got.k is None,
+                       f'make_dotprops(skeleton, k={case["k"]}, resample={rs}) differs from make_dotprops(resampled skeleton)', case)
+            ctx.oracle(x.n_nodes == len(rows), 'make_dotprops(resample=...) modified its input', case)
+        except Exception as e:
+            ctx.count('tan_resample', f'raises {type(e).__name__}')
     nd = x.nodes
     line = 'c19.tan ' + ';'.join(f'{int(i)},{int(p)},{tok(fl(a))},{tok(fl(b))},{tok(fl(c))}' for i, p, a, b, c in
                                  zip(nd.node_id.values, nd.parent_id.values, nd.x.values, nd.y.values, nd.z.values))
@@ -316,6 +377,16 @@ def case_tan(ctx, case):
                 ok_len = False
     else:
         ok_dir = ok_len = False
+    if len(pts_i) == len(model) == len(vect) == len(length):
+        tc = kv(ctx.ask('c19.tancheck 1/1099511627776 | ' + line[len('c19.tan '):] + ' | '
+                        + ';'.join(','.join(tok(fl(c)) for c in v_) + ',' + tok(fl(L_)) for v_, L_ in zip(vect, length))))
+        oks = [t for t in tc.get('ok', '').split(',') if t]
+        ctx.oracle(len(oks) == len(model) and all(t == '1' for t in oks),
+                   f'Lean tanOKB rejects navis\' normalised vector / length for tangent(s) {[i for i, t in enumerate(oks) if t != "1"][:4]} '
+                   f'(unit length, parallel to child − parent, length² == |child − parent|²)', case)
+        for sg in tc.get('sign', '').split(','):
+            if sg:
+                ctx.count('tan_sign_lean', sg)
     ctx.corr(ok_dir, True, 'vect parallel to the model vector child − parent (cross = 0; the sign is not an observable)', case)
     ctx.corr(ok_len, True, 'length² == exact squared edge length', case)
     # ---------------- oracles (definition computed directly from the table)
@@ -473,6 +544,28 @@ def check_tangents(ctx, case, pts, k_used, vect, alpha, what):
                      f'alpha == Lean alpha({ana["svals"]}) = {out}', case)
 
 
+EPS_U, EPS_V, EPS_A = '1/1099511627776', '1/67108864', '1/1073741824'      # 2^-40, 2^-26, 2^-30
+
+
+def lean_judge(ctx, case, pts, k_req, k_used, vect, alpha, what):
+    """The property for (points, vect, alpha) decided by the Lean model: exact kNN (ties flagged), centroid, scatter matrix, `judge`."""
+    if not len(pts):
+        return
+    if not (np.all(np.isfinite(vect)) and np.all(np.isfinite(alpha))):
+        ctx.oracle(False, f'{what}: non-finite tangent / alpha', case)
+        return
+    line = (f'c19.dots {k_req} {EPS_U} {EPS_V} {EPS_A} | ' + ';'.join(p3tok(p) for p in pts) + ' | '
+            + ';'.join(','.join(tok(fl(c)) for c in v) for v in vect) + ' | ' + ';'.join(tok(fl(a)) for a in alpha))
+    out = kv(ctx.ask(line))
+    ctx.corr(int(out['k']), int(k_used), f'{what}: k used == Lean kClip(n, k)', case)
+    verd = out['v'].split(';')
+    for w in verd:
+        ctx.count('dots_lean_verdict', w)
+    bad = [(i, w) for i, w in enumerate(verd) if w.startswith('bad')]
+    ctx.oracle(not bad, f'{what}: Lean judge (exact k nearest neighbours, centroid, scatter matrix; unit tangent / principal axis / alpha '
+                        f'from the characteristic polynomial) rejects point(s) {bad[:4]}', case)
+
+
 def case_dots(ctx, case):
     raw = case['pts']
     has_inf = any(c in ('inf', '-inf') for p in raw for c in p)
@@ -503,6 +596,7 @@ def case_dots(ctx, case):
     if len(P) != len(pts) or len(vect) != len(pts) or len(alpha) != len(pts):
         return
     check_tangents(ctx, case, pts, int(dp.k), vect, alpha, f'make_dotprops(k={k})')
+    lean_judge(ctx, case, pts, k, int(dp.k), vect, alpha, f'make_dotprops(k={k})')
     # recalculate_tangents on the result (raises when k > n by design)
     k2 = case.get('k2')
     if k2:
@@ -518,6 +612,8 @@ def case_dots(ctx, case):
                 c2.pop('analytic', None)
             check_tangents(ctx, c2, pts, k2, np.asarray(dp2.vect, dtype=float), np.asarray(dp2.alpha, dtype=float),
                            f'recalculate_tangents({k2})')
+            lean_judge(ctx, c2, pts, k2, k2, np.asarray(dp2.vect, dtype=float), np.asarray(dp2.alpha, dtype=float),
+                       f'recalculate_tangents({k2})')
 
 
 # ---------------------------------------------------------------------------------------------
@@ -525,7 +621,7 @@ def case_dots(ctx, case):
 # ---------------------------------------------------------------------------------------------
 def tree_from_rows(rows, radii, units=None):
     df = G.rows_to_df(rows)
-    df['radius'] = np.array(radii, dtype=float)
+    df['radius'] = np.array([np.nan if x is None else x for x in radii], dtype=float)
     return navis.TreeNeuron(df, units=units, id=9, name='tube')
 
 
@@ -541,13 +637,24 @@ def case_tube(ctx, case):
     V = np.asarray(m.vertices, dtype=float)
     vm = np.asarray(m.vertex_map)
     P = x.nodes[['x', 'y', 'z']].values.astype(float)
-    R = x.nodes.radius.values.astype(float)
+    R = np.nan_to_num(x.nodes.radius.values.astype(float), nan=0.0)
+    ctx.count('tube_zero_or_missing_radius', bool((R <= 0).any()))
     scale = 1 + np.abs(P).max()
     has_child = {r_['parent'] for r_ in rows}
     iso = [i for i, r_ in enumerate(rows) if r_['parent'] < 0 and r_['id'] not in has_child]
     ctx.count('tube_isolated_nodes', min(len(iso), 3))
     ctx.oracle(len(vm) == len(V) and (len(V) == 0 or (vm.min() >= 0 and vm.max() < len(P))),
                f'vertex_map ({len(vm)} entries) does not map every one of the {len(V)} vertices to a node index', case)
+    # exact sub-claims decided by Lean (theorem mesh_checkers_sound): every vertex mapped to a node index in range; every node that
+    # has an edge occurs in the map; every such node lies in the (tight) bounding box of the vertices
+    need = [i for i in range(len(P)) if i not in iso]
+    lv = ctx.ask(f'c19.vmapidx {len(V)} {len(P)} | ' + ','.join(str(int(i)) for i in vm) + ' | ' + ','.join(map(str, need)))
+    ctx.oracle(lv == 'ok=1 covers=1', f'Lean vmapIndexOKB / vmapCoversB on the tube mesh: {lv} ({len(V)} vertices, {len(vm)} map entries, '
+                                      f'{len(P)} nodes, {len(need)} nodes with an edge)', case)
+    if len(V) and need:
+        lb = ctx.ask('c19.bbox 1/1048576 | ' + ';'.join(p3tok([fl(c) for c in q]) for q in V) + ' | '
+                     + ';'.join(p3tok([fl(c) for c in P[i]]) for i in need))
+        ctx.oracle(lb == 'ok=1', 'Lean bboxContainsB: a node with an edge lies outside the bounding box of the tube mesh', case)
     if len(vm) != len(V):
         return
     if iso:
@@ -583,25 +690,53 @@ def case_tube(ctx, case):
     ctx.oracle(unit_name(m) == unit_name(x), 'units not carried over to the mesh', case)
 
 
-def case_vmesh(ctx, case):
+def make_voxelneuron(ctx, case):
+    """VoxelNeuron for the surface tests: either navis.voxelize of a point cloud (default or explicit enclosing bounds) or a grid
+    built directly (boxes of filled voxels away from index 0, per-axis units, non-zero offset)."""
+    if case.get('src', 'points') == 'grid':
+        grid = np.zeros(tuple(case['shape']), dtype=bool)
+        for (a, b) in case['boxes']:
+            grid[a[0]:b[0], a[1]:b[1], a[2]:b[2]] = True
+        if case.get('counts'):
+            grid = grid.astype(int) * 3
+        return navis.VoxelNeuron(grid, units=case['vunits'], offset=[float(fr(c)) for c in case['offset']], id=4, name='blob')
     pts, P = vox_inputs(case)
     x = build_neuron('tree', P, case['units'])
     pitch = [float(fr(c)) for c in case['pitch']]
+    b = case.get('bounds')
+    bounds = None if b is None else np.array([[float(fr(l)), float(fr(h))] for l, h in zip(b['lo'], b['hi'])])
+    return navis.voxelize(x, pitch=pitch, counts=case['counts'], bounds=bounds)
+
+
+def case_vmesh(ctx, case):
     try:
-        v = navis.voxelize(x, pitch=pitch, counts=case['counts'])
+        v = make_voxelneuron(ctx, case)
     except Exception as e:
-        ctx.oracle(False, f'voxelize with default bounds raises {type(e).__name__}: {str(e)[:120]}', case)
+        ctx.oracle(False, f'building the VoxelNeuron raises {type(e).__name__}: {str(e)[:120]}', case)
         return
+    kw = {}
+    for k_ in ('chunk_size', 'pad_chunks', 'merge_fragments'):
+        if k_ in case and case[k_] is not None:
+            kw[k_] = case[k_]
+    chunked = bool(kw.get('chunk_size')) and kw.get('chunk_size') != 'auto'
+    ctx.count('vmesh_path', ('chunked' if chunked else 'single') + ('/pad_chunks=False' if kw.get('pad_chunks') is False else ''))
+    ctx.count('vmesh_src', case.get('src', 'points') + ('/bounds' if case.get('bounds') else ''))
     try:
-        m = navis.mesh(v) if case['via'] == 'mesh' else navis.conversion.voxels2mesh(v, chunk_size=case.get('chunk_size', 'auto'), progress=False)
+        m = navis.mesh(v, progress=False, **kw) if case['via'] == 'mesh' else navis.conversion.voxels2mesh(v, progress=False, **kw)
     except Exception as e:
-        ctx.oracle(False, f'navis.mesh(VoxelNeuron) raises {type(e).__name__}: {str(e)[:120]}', case)
+        if chunked and case.get('src', 'points') == 'points' and isinstance(e, ValueError) and 'at least one array' in str(e):
+            # the chunked path skips chunks with a single voxel / flat chunks; a sparse grid can leave nothing to mesh
+            ctx.count('vmesh_chunked_nothing_to_mesh', True)
+            return
+        ctx.oracle(False, f'navis.mesh(VoxelNeuron, {kw}) raises {type(e).__name__}: {str(e)[:120]}', case)
         return
     V = np.asarray(m.vertices, dtype=float)
     off = np.asarray(v.offset, dtype=float)
     un = np.asarray(v.units_xyz.magnitude, dtype=float)
     vox = np.asarray(v.voxels, dtype=float)
     ctx.count('vmesh_voxels', min(len(vox), 60) // 10 * 10)
+    ctx.count('vmesh_first_filled_index>0', bool(len(vox) and vox.min(axis=0).max() > 0))
+    ctx.count('vmesh_units', 'unit' if np.all(un == 1) else ('iso' if np.all(un == un[0]) else 'per-axis'))
     if len(V) == 0:
         ctx.oracle(len(vox) <= 1, 'marching cubes returned an empty surface for a non-empty grid', case)
         return
@@ -614,8 +749,17 @@ def case_vmesh(ctx, case):
     d = np.abs(V[:, None, :] - coords[None, :, :]) / un[None, None, :]
     cheb = d.max(axis=2).min(axis=1)
     ctx.oracle(bool(cheb.max() <= 0.5 + 1e-6), f'a surface vertex is {cheb.max():.3f} voxels (Chebyshev) from the nearest filled voxel (> 0.5)', case)
-    bb = np.array([V.min(axis=0), V.max(axis=0)])
-    ctx.oracle(bool(np.all(coords >= bb[0] - eps) and np.all(coords <= bb[1] + eps)), 'a filled voxel centre lies outside the bounding box of the surface', case)
+    # the same two clauses decided by Lean on the exact dyadic coordinates (theorems surface_fast_sound, hugging_surface_stays_in_extent)
+    if len(V) <= 6000:
+        ls = ctx.ask('c19.surf 1/1024 | ' + p3tok([fl(c) for c in off]) + ' | ' + p3tok([fl(c) for c in un]) + ' | '
+                     + ','.join(str(int(t)) for t in v.shape) + ' | ' + ';'.join(p3tok([fl(c) for c in q]) for q in V) + ' | '
+                     + ';'.join(','.join(str(int(t)) for t in q) for q in vox))
+        ctx.oracle(ls == 'hugs=1 extent=1', f'Lean surfaceHugsB / surfaceInExtentB on the surface in the grid\'s coordinates '
+                                            f'(offset {off}, units {un}, shape {v.shape}): {ls}', case)
+    if not chunked:
+        bb = np.array([V.min(axis=0), V.max(axis=0)])
+        ctx.oracle(bool(np.all(coords >= bb[0] - eps) and np.all(coords <= bb[1] + eps)), 'a filled voxel centre lies outside the bounding box of the surface', case)
+    ctx.oracle(str(m.units.units) == str(v.units.units) if hasattr(m, 'units') else True, 'unit name not carried over to the surface', case)
 
 
 def case_skel(ctx, case):
@@ -629,6 +773,11 @@ def case_skel(ctx, case):
     else:
         if src['kind'] == 'cylinder':
             t = tm.creation.cylinder(radius=src['r'], height=src['h'], sections=src['sections'])
+        elif src['kind'] == 'two':
+            a = tm.creation.cylinder(radius=src['r'], height=src['h'], sections=src['sections'])
+            b = tm.creation.cylinder(radius=src['r'], height=src['h'], sections=src['sections'])
+            b.apply_translation(src['gap'])
+            t = tm.util.concatenate([a, b])
         elif src['kind'] == 'capsule':
             t = tm.creation.capsule(radius=src['r'], height=src['h'], count=[8, 8])
         else:
@@ -640,6 +789,10 @@ def case_skel(ctx, case):
     kw = {}
     if case['method'] == 'teasar':
         kw = dict(method='teasar', inv_dist=case['inv_dist'])
+    for opt in ('shave', 'heal'):
+        if case.get(opt) is not None:
+            kw[opt] = case[opt]
+    ctx.count('skel_options', f"shave={case.get('shave')} heal={case.get('heal')}")
     try:
         s = navis.skeletonize(mesh, **kw) if case['via'] == 'skeletonize' else navis.conversion.mesh2skeleton(mesh, **kw)
     except Exception as e:
@@ -649,6 +802,8 @@ def case_skel(ctx, case):
     nodes = s.nodes[['x', 'y', 'z']].values.astype(float)
     ids = set(int(i) for i in s.nodes.node_id.values)
     ctx.count('skel_nodes', min(len(nodes), 50) // 10 * 10)
+    ctx.count('skel_source', src['kind'] + '/' + case['method'])
+    ctx.count('skel_roots', min(int((s.nodes.parent_id.values < 0).sum()), 3))
     ctx.oracle(len(nodes) > 0, 'skeleton has no nodes', case)
     tol = 1e-6 * (1 + np.abs(V).max())
     ctx.oracle(bool(np.all(nodes >= V.min(axis=0) - tol) and np.all(nodes <= V.max(axis=0) + tol)),
@@ -658,6 +813,13 @@ def case_skel(ctx, case):
     if vm is not None:
         bad = [int(i) for i in np.asarray(vm) if int(i) not in ids]
         ctx.oracle(not bad, f'vertex_map refers to {len(bad)} node id(s) that do not exist, e.g. {bad[:4]}', case)
+        lv = ctx.ask(f'c19.vmapid {len(V)} | ' + ','.join(str(int(i)) for i in np.asarray(vm)) + ' | ' + ','.join(str(i) for i in sorted(ids)))
+        ctx.oracle(lv == 'ok=1', f'Lean vmapIdOKB: vertex_map does not map every one of the {len(V)} mesh vertices to an existing node id', case)
+    if len(nodes):
+        tol_l = Fr(1, 1 << 20) * (1 + int(np.abs(V).max()))
+        lb = ctx.ask(f'c19.bbox {tok(tol_l)} | ' + ';'.join(p3tok([fl(c) for c in q]) for q in V) + ' | '
+                     + ';'.join(p3tok([fl(c) for c in q]) for q in nodes))
+        ctx.oracle(lb == 'ok=1', 'Lean bboxContainsB: a skeleton node lies outside the bounding box of the mesh', case)
 
 
 # ---------------------------------------------------------------------------------------------
@@ -674,7 +836,20 @@ def gen_round(r):
     return {'qs': qs}
 
 
+def unit_string(r, phys, uname):
+    """pitch string for a physical length `phys` (in `uname`): either in the neuron's own unit or in the other of nm / um.
+    Returns (string, q, factor) with phys = q * factor."""
+    other = {'nm': ('um', Fr(1000)), 'um': ('nm', Fr(1, 1000))}[uname]
+    if r.random() < 0.3:
+        q = phys / other[1]
+        txt = repr(float(q))
+        if Fr(txt) == q and 'e' not in txt:
+            return f'{txt} {other[0]}', q, other[1]
+    return f'{float(phys)} {uname}', phys, Fr(1)
+
+
 def gen_vox(r, big=False):
+    phys_spec = None
     ntype = r.choice(['tree', 'tree', 'dotprops', 'mesh'])
     units = r.choice([None, None, '8 nm', '1 um', '2 nm', ['4 nm', '4 nm', '40 nm'], ['2 nm', '8 nm', '1 nm']])
     iso = not isinstance(units, list)
@@ -691,17 +866,26 @@ def gen_vox(r, big=False):
     elif kind == 'string':
         mult = r.choice([Fr(1, 2), Fr(1), Fr(2), Fr(4)])           # pitch = mult neuron units = mult*umag physical units
         phys = mult * umag
-        exact, arg = [mult] * 3, {'kind': 'string', 'v': f'{float(phys)} {uname}'}
+        s_, q_, f_ = unit_string(r, phys, uname)
+        exact, arg = [mult] * 3, {'kind': 'string', 'v': s_}
+        phys_spec = [[tok(q_), tok(f_)]] * 3
     else:
-        exact, v = [], []
+        exact, v, phys_spec = [], [], []
         for _ in range(3):
             mult = r.choice([Fr(1, 2), Fr(1), Fr(2)])
             exact.append(mult)
-            v.append(f'{float(mult * umag)} {uname}' if r.random() < 0.5 else tok(mult))
+            if r.random() < 0.5:
+                s_, q_, f_ = unit_string(r, mult * umag, uname)
+                v.append(s_); phys_spec.append([tok(q_), tok(f_)])
+            else:
+                v.append(tok(mult)); phys_spec.append(None)
         arg = {'kind': 'vector', 'v': v}
+    vectors = r.random() < 0.25
     n = r.randint(3, 60) if big else r.choice([3, 3, 4, 5, 6, 8, 12])
     base = [r.randint(-12, 12) for _ in range(3)]
     span = r.choice([2, 4, 8, 12, 24])
+    if vectors and r.random() < 0.7:            # dense clouds: several distinct points per voxel, so voxels have a principal axis
+        n, span = max(n, r.randint(10, 24)), r.choice([3, 5, 7])
     ms = []
     for _ in range(n):
         if ms and r.random() < 0.25:
@@ -733,10 +917,16 @@ def gen_vox(r, big=False):
             hi = [max(lo[k], mx[k] - r.randint(-4, max((mx[k] - mn[k]) // 2, 0))) for k in range(3)]
         bounds = {'lo': [tok(Fr(lo[k], 4) * exact[k]) for k in range(3)], 'hi': [tok(Fr(hi[k], 4) * exact[k]) for k in range(3)],
                   'layout': r.choice(['3x2', '3x2', '2x3']), 'cls': cls, 'as': r.choice(['array', 'list'])}
-    vectors = r.random() < 0.2
-    alphas = r.random() < 0.1
-    return {'ntype': ntype, 'units': units, 'pitch_arg': arg, 'pitch_exact': [tok(c) for c in exact], 'pts': pts, 'bounds': bounds,
-            'counts': r.random() < 0.6, 'vectors': vectors, 'alphas': alphas}
+    alphas = r.random() < (0.6 if vectors else 0.05)
+    out = {'ntype': ntype, 'units': units, 'pitch_arg': arg, 'pitch_exact': [tok(c) for c in exact], 'pts': pts, 'bounds': bounds,
+           'counts': r.random() < 0.6, 'vectors': vectors, 'alphas': alphas}
+    if phys_spec:
+        out['pitch_phys'] = phys_spec
+    if ntype == 'tree' and bounds is None and r.random() < 0.3:
+        # connectors outside the node cloud enlarge x.bbox, i.e. the default bounds
+        out['conn'] = [[tok(Fr(r.choice([mn[k] - r.randint(1, 9), mx[k] + r.randint(1, 9), mn[k]]), 4) * exact[k]) for k in range(3)]
+                       for _ in range(r.randint(1, 3))]
+    return out
 
 
 def exhaustive_vox():
@@ -755,7 +945,10 @@ def gen_tan(r, big=False):
                                labeling=r.choice(['seq', 'shuffled', 'sparse', 'zero', 'reversed']))
     sc = r.choice([Fr(1), Fr(1), Fr(1, 2), Fr(1, 4), Fr(2)])
     out = [dict(id=int(x['id']), parent=int(x['parent']), x=tok(x['x'] * sc), y=tok(x['y'] * sc), z=tok(x['z'] * sc)) for x in rows]
-    return {'rows': out, 'k': r.choice([0, 0, None]), 'units': r.choice([None, '8 nm', '1 um']), 'shape': meta['shape']}
+    c = {'rows': out, 'k': r.choice([0, 0, None]), 'units': r.choice([None, '8 nm', '1 um']), 'shape': meta['shape']}
+    if r.random() < 0.15:
+        c['resample'] = r.choice(['2', '5', '1/2'])
+    return c
 
 
 def _rot(r, v):
@@ -860,25 +1053,125 @@ def _no_isolated(rows):
 
 def gen_tube(r):
     while True:
-        rows, meta = G.rand_forest(r, n=r.randint(2, 14), allow_zero_edges=False, labeling=r.choice(['seq', 'shuffled', 'sparse']),
+        rows, meta = G.rand_forest(r, n=r.randint(2, 14), allow_zero_edges=False, labeling=r.choice(['seq', 'shuffled', 'sparse', 'zero', 'reversed', 'large']),
                                    shape=r.choice(['chain', 'star', 'caterpillar', 'broom', 'balanced', 'random', 'forest', 'broot']))
         if _no_isolated(rows) or r.random() < 0.5:
             break
     rows = [dict(id=int(x['id']), parent=int(x['parent']), x=int(x['x']), y=int(x['y']), z=int(x['z'])) for x in rows]
     radii = [r.choice([0.125, 0.25, 0.5, 0.5]) for _ in rows]
+    if r.random() < 0.15:                       # missing / zero radii are documented to be treated as 0 (the ring collapses onto the node)
+        radii[r.randrange(len(radii))] = r.choice([0.0, None])
     return {'rows': rows, 'radii': radii, 'tube_points': r.choice([4, 6, 8, 8]), 'use_normals': r.random() < 0.7,
             'via': r.choice(['mesh', 'tree2meshneuron'])}
 
 
 def gen_vmesh(r):
+    kind = r.choice(['points', 'points', 'points/bounds', 'grid', 'grid', 'grid'])
+    chunk = r.choice(['auto', 0, None, 2, 3, 4, 8, 200])
+    opts = {'via': r.choice(['mesh', 'mesh', 'voxels2mesh']), 'chunk_size': chunk,
+            'pad_chunks': r.choice([None, True, False]) if chunk not in ('auto', 0, None) else None,
+            'merge_fragments': r.choice([None, True, False]) if chunk not in ('auto', 0, None) else None}
+    if kind == 'grid':
+        shape = [r.randint(6, 14) for _ in range(3)]
+        boxes = []
+        for _ in range(r.choice([1, 1, 2, 3])):
+            a = [r.randint(1 if r.random() < 0.85 else 0, shape[k] - 3) for k in range(3)]
+            b = [min(shape[k], a[k] + r.randint(2, 5)) for k in range(3)]
+            boxes.append((a, b))
+        un = r.choice([['1 micron'] * 3, ['0.5 micron'] * 3, ['2 nm'] * 3, ['0.5 micron', '0.25 micron', '2 micron'], ['4 nm', '4 nm', '40 nm'],
+                       ['0.125 um', '1 um', '8 um']])
+        return dict(opts, src='grid', shape=shape, boxes=boxes, vunits=un, offset=[tok(Fr(r.randint(-80, 80), r.choice([1, 2, 4]))) for _ in range(3)],
+                    counts=r.random() < 0.2)
     c = gen_vox(r, big=r.random() < 0.5)
     ex = [fr(t) for t in c['pitch_exact']]
-    return {'pts': c['pts'], 'units': c['units'], 'pitch': [tok(t) for t in ex], 'counts': r.random() < 0.3,
-            'via': r.choice(['mesh', 'mesh', 'voxels2mesh']), 'chunk_size': r.choice(['auto', 0])}
+    out = dict(opts, src='points', pts=c['pts'], units=c['units'], pitch=[tok(t) for t in ex], counts=r.random() < 0.3)
+    if kind == 'points/bounds':
+        P = [[fr(t) for t in p] for p in c['pts']]
+        lo = [min(p[k] for p in P) - ex[k] * r.randint(1, 6) for k in range(3)]
+        hi = [max(p[k] for p in P) + ex[k] * r.randint(0, 3) for k in range(3)]
+        out['bounds'] = {'lo': [tok(t) for t in lo], 'hi': [tok(t) for t in hi]}
+    return out
+
+
+def gen_nlist(r):
+    return {'vox': [gen_vox(r) for _ in range(r.randint(2, 3))], 'tan': [gen_tan(r) for _ in range(r.randint(2, 3))],
+            'k': r.choice([0, 3, 5, 20]), 'pitch': r.choice(['8', '16', '32'])}
+
+
+def case_nlist(ctx, case):
+    """`@map_neuronlist`: a NeuronList goes element by element through the same code (results must equal the single-neuron results)."""
+    xs = []
+    for i, c in enumerate(case['tan']):
+        rows = c['rows']
+        df = pd.DataFrame({'node_id': np.array([r_['id'] for r_ in rows], dtype=np.int64),
+                           'parent_id': np.array([r_['parent'] for r_ in rows], dtype=np.int64),
+                           'x': [float(fr(r_['x'])) for r_ in rows], 'y': [float(fr(r_['y'])) for r_ in rows],
+                           'z': [float(fr(r_['z'])) for r_ in rows], 'radius': 0.01})
+        xs.append(navis.TreeNeuron(df, units=c.get('units'), id=100 + i, name=f's{i}'))
+    nl = navis.NeuronList(xs)
+    k = case['k']
+    try:
+        dl = navis.make_dotprops(nl, k=k)
+        single = [navis.make_dotprops(x, k=k) for x in xs]
+    except Exception as e:
+        ctx.oracle(False, f'make_dotprops(NeuronList, k={k}) raises {type(e).__name__}: {str(e)[:120]}', case)
+        return
+    ctx.oracle(isinstance(dl, navis.NeuronList) and len(dl) == len(xs), f'make_dotprops(NeuronList) returned {type(dl).__name__} of length '
+                                                                        f'{len(dl) if hasattr(dl, "__len__") else "?"} for {len(xs)} neurons', case)
+    if isinstance(dl, navis.NeuronList) and len(dl) == len(xs):
+        same = all(np.array_equal(np.asarray(a.points), np.asarray(b.points)) and np.array_equal(np.asarray(a.vect), np.asarray(b.vect))
+                   and a.k == b.k and str(a.id) == str(b.id) for a, b in zip(dl, single))
+        ctx.oracle(same, 'make_dotprops(NeuronList)[i] differs from make_dotprops(NeuronList[i]) (points / vect / k / id)', case)
+    p = float(fr(case['pitch']))
+    try:
+        vl = navis.voxelize(nl, pitch=p, counts=True)
+        vs = [navis.voxelize(x, pitch=p, counts=True) for x in xs]
+    except Exception as e:
+        ctx.oracle(False, f'voxelize(NeuronList) raises {type(e).__name__}: {str(e)[:120]}', case)
+        return
+    ok = isinstance(vl, navis.NeuronList) and len(vl) == len(xs) and all(
+        np.array_equal(np.asarray(a.grid), np.asarray(b.grid)) and np.array_equal(np.asarray(a.offset, dtype=float), np.asarray(b.offset, dtype=float))
+        and np.array_equal(np.asarray(a.units_xyz.magnitude, dtype=float), np.asarray(b.units_xyz.magnitude, dtype=float)) for a, b in zip(vl, vs))
+    ctx.oracle(ok, 'voxelize(NeuronList)[i] differs from voxelize(NeuronList[i]) (grid / offset / units)', case)
+    if ok:
+        for a, x in zip(vl, xs):
+            ctx.oracle(int(np.asarray(a.grid).sum()) == x.n_nodes, 'voxelize(NeuronList, counts=True): total != number of nodes (default bounds)', case)
+
+
+def gen_voxdots(r):
+    shape = [r.randint(3, 8) for _ in range(3)]
+    vox = sorted({tuple(r.randrange(shape[k]) for k in range(3)) for _ in range(r.randint(2, 24))})
+    return {'shape': shape, 'vox': [list(v) for v in vox], 'vunits': r.choice([['1 micron'] * 3, ['0.5 micron'] * 3, ['8 nm'] * 3]),
+            'offset': [r.choice([0, 0, 4, -12]) for _ in range(3)], 'k': r.choice([2, 3, 5, 20])}
+
+
+def case_voxdots(ctx, case):
+    """make_dotprops(VoxelNeuron, k): points are the filled voxels scaled by the voxel size; tangents / alpha judged by Lean."""
+    grid = np.zeros(tuple(case['shape']), dtype=bool)
+    for v in case['vox']:
+        grid[tuple(v)] = True
+    vx = navis.VoxelNeuron(grid, units=case['vunits'], offset=case['offset'], id=2, name='vd')
+    try:
+        dp = navis.make_dotprops(vx, k=case['k'])
+    except Exception as e:
+        ctx.oracle(False, f'make_dotprops(VoxelNeuron, k={case["k"]}) raises {type(e).__name__}: {str(e)[:120]}', case)
+        return
+    un = [fl(c) for c in np.asarray(vx.units_xyz.magnitude, dtype=float)]
+    want = sorted(p3tok([Fr(v[k]) * un[k] for k in range(3)]) for v in case['vox'])
+    P = [[fl(c) for c in p] for p in np.asarray(dp.points, dtype=float)]
+    shifted = sorted(p3tok([Fr(v[k]) * un[k] + Fr(case['offset'][k]) for k in range(3)]) for v in case['vox'])
+    got = sorted(p3tok(p) for p in P)
+    ctx.count('voxdots_points', 'voxels*units (offset dropped)' if got == want and want != shifted else
+              ('voxels*units+offset' if got == shifted else ('voxels*units' if got == want else 'other')))
+    ctx.oracle(got == want or got == shifted, f'make_dotprops(VoxelNeuron): the {len(P)} points are not the {len(want)} filled voxels scaled by the voxel size', case)
+    ctx.corr(int(dp.k), int(ctx.ask(f'c19.kclip {len(P)} {case["k"]}')), 'make_dotprops(VoxelNeuron): k == kClip', case)
+    if len(P) == len(want):
+        lean_judge(ctx, case, P, case['k'], int(dp.k), np.asarray(dp.vect, dtype=float), np.asarray(dp.alpha, dtype=float),
+                   f'make_dotprops(VoxelNeuron, k={case["k"]})')
 
 
 def gen_skel(r):
-    kind = r.choice(['tube', 'tube', 'cylinder', 'capsule', 'box'])
+    kind = r.choice(['tube', 'tube', 'cylinder', 'capsule', 'box', 'two'])
     if kind == 'tube':
         rows, _ = G.rand_forest(r, n=r.randint(2, 10), allow_zero_edges=False, labeling='seq',
                                 shape=r.choice(['chain', 'caterpillar', 'random', 'broom']), order='parent_first')
@@ -888,12 +1181,15 @@ def gen_skel(r):
         src = {'kind': 'cylinder', 'r': r.choice([0.5, 1.0, 2.0]), 'h': r.choice([6.0, 10.0, 20.0]), 'sections': r.choice([8, 12, 16])}
     elif kind == 'capsule':
         src = {'kind': 'capsule', 'r': r.choice([0.5, 1.0]), 'h': r.choice([6.0, 12.0])}
+    elif kind == 'two':
+        src = {'kind': 'two', 'r': r.choice([0.5, 1.0]), 'h': r.choice([6.0, 10.0]), 'sections': 8, 'gap': [float(r.randint(20, 40)), 0.0, float(r.randint(-9, 9))]}
     else:
         src = {'kind': 'box', 'extents': [r.choice([1.0, 2.0]), r.choice([1.0, 2.0]), r.choice([6.0, 12.0])], 'subdivide': r.choice([1, 2])}
     if kind != 'tube':
         src['shift'] = [float(r.randint(-50, 50)) for _ in range(3)]
     method = r.choice(['wavefront', 'wavefront', 'teasar'])
     return {'src': src, 'method': method, 'inv_dist': r.choice([1.0, 2.0, 5.0]), 'wrap': r.random() < 0.7,
+            'shave': r.choice([None, None, False, True]), 'heal': r.choice([None, None, None, True]),
             'units': r.choice([None, '8 nm']), 'via': r.choice(['skeletonize', 'mesh2skeleton'])}
 
 
@@ -907,24 +1203,28 @@ def gen_cases(ctx):
     for c in ex:
         yield 'vox', c
         yield 'vox', dict(c, counts=True, bounds=dict(c['bounds'], cls='sweep-counts'))
-    for i in range(ctx.budget(260, 9000)):
+    for i in range(ctx.budget(380, 9000)):
         yield 'vox', gen_vox(r, big=(i % 10 == 9))
-    for i in range(ctx.budget(120, 4000)):
+    for i in range(ctx.budget(160, 4000)):
         yield 'tan', gen_tan(r, big=(i % 10 == 9))
-    for i in range(ctx.budget(220, 7000)):
+    for i in range(ctx.budget(320, 7000)):
         yield 'dots', gen_dots(r, big=(i % 10 == 9))
-    for _ in range(ctx.budget(40, 1000)):
+    for _ in range(ctx.budget(80, 1000)):
         yield 'tube', gen_tube(r)
+    for _ in range(ctx.budget(8, 200)):
+        yield 'nlist', gen_nlist(r)
+    for _ in range(ctx.budget(12, 300)):
+        yield 'voxdots', gen_voxdots(r)
     if HAVE_SKIMAGE:
-        for _ in range(ctx.budget(30, 800)):
+        for _ in range(ctx.budget(100, 1500)):
             yield 'vmesh', gen_vmesh(r)
     if HAVE_SKELETOR and tm is not None:
-        for _ in range(ctx.budget(25, 600)):
+        for _ in range(ctx.budget(40, 600)):
             yield 'skel', gen_skel(r)
 
 
 RUNNERS = {'round': case_round, 'vox': case_vox, 'tan': case_tan, 'dots': case_dots, 'tube': case_tube, 'vmesh': case_vmesh,
-           'skel': case_skel}
+           'skel': case_skel, 'nlist': case_nlist, 'voxdots': case_voxdots}
 
 
 def nontrivial(kind, case):
@@ -933,6 +1233,8 @@ def nontrivial(kind, case):
     if kind == 'tan':
         return any(x['parent'] >= 0 for x in case['rows'])
     if kind == 'dots':
+        return len(case['pts']) >= 2
+    if kind == 'vmesh' and case.get('src') == 'points':
         return len(case['pts']) >= 2
     return True
 
@@ -945,8 +1247,11 @@ def run(ctx):
         'position against every quarter-pitch lower bound. tan: shared forest generator (all shapes, labelings, row orders, zero-length '
         'edges, Pythagorean edge vectors) scaled by a dyadic factor, k=0/None. dots: collinear / planar / reflection-symmetric / random / '
         'duplicated / fully degenerate / inf-row clouds in ndarray / DataFrame / TreeNeuron / MeshNeuron / Dotprops containers, NaN rows, '
-        'k from 1 to > n, optional recalculate_tangents. tube / vmesh / skel: oracle-only tests on random skeletons, voxel grids and '
-        'meshes (tube meshes and trimesh primitives; wavefront and teasar). Non-trivial = at least 2 points / one edge; '
+        'k from 1 to > n, optional recalculate_tangents; voxdots: make_dotprops on VoxelNeurons; nlist: NeuronList inputs of make_dotprops / '
+        'voxelize. tube / vmesh / skel: random skeletons (forests, isolated nodes, all labelings and row orders), voxel grids (from point clouds '
+        'with default / enclosing bounds and built directly with offset, per-axis units and blobs away from index 0; single-pass and chunked '
+        'marching cubes) and meshes (tube meshes, trimesh primitives, two-component meshes; wavefront and teasar), with the exact sub-claims '
+        '(vertex maps, bounding boxes, surface hugging / extent) decided by Lean checkers. Non-trivial = at least 2 points / one edge; '
         'distinct = distinct JSON digest')
     ctx.extra['assumptions'] = [
         'voxel inputs are dyadic (multiples of pitch/4, |multiplier| < 2^10), so p/pitch, lo/pitch, offsets and units are exact doubles',
@@ -956,10 +1261,18 @@ def run(ctx):
         'locations are skipped (free choice of the KD-tree); principal axis / alpha compared with tolerance 1e-8 relative to the trace',
         'mesh tests: tube containment is tested as "cross-section rings centred on the node and surface within two radii", because the '
         'tube mesh is open-ended (not watertight) and ray-casting containment is undefined for it',
+        'Lean judge tolerances: unit length 2^-40, eigen-residual / Rayleigh excess 2^-26·trace, characteristic-polynomial coefficients '
+        '2^-30·trace^2 (trace^3) for float64 dotprops; 2^-16 / 2^-12 / 2^-12 for the float32 vector / alpha fields of voxel grids; tangents of '
+        'skeletons 2^-40; surfaces: half a voxel + 2^-10 voxel; bounding boxes 2^-20·(1 + max |coordinate|)',
+        'unit-string pitches are used only when navis maps them to the exact dyadic number of neuron units (inexact pint conversions are '
+        'counted in `vox_pitch_string_inexact` and skipped)',
     ]
     missing = [n for n, ok in (('skimage', HAVE_SKIMAGE), ('skeletor', HAVE_SKELETOR), ('trimesh', tm is not None)) if not ok]
     if missing:
         ctx.notes.append(f'optional dependencies missing, streams skipped: {missing}')
+    ctx.notes.append('observation (outside the statement): make_dotprops(VoxelNeuron) returns points = voxels * units without the neuron\'s '
+                     '`offset` (histogram voxdots_points); tangents and alpha are unaffected (theorem scatter_invariances), the statement does '
+                     'not fix the position of these points, so this is recorded, not reported')
     ctx.notes.append('not counted as defects: navis.mesh(ndarray) / navis.skeletonize(ndarray) raise AttributeError (`x.ndims`, `x.points`); '
                      'make_dotprops on an empty / all-NaN cloud raises ValueError; recalculate_tangents(k=1) fails a reshape. '
                      'neuron2tangents returns child − parent (pointing parent→child) although its docstring says child→parent: tangents are '
